@@ -69,7 +69,7 @@ def linehist (args res : List String) : Verdict :=
          let K := kernOf (ctorT ++ setT)
          let st0 : Option (St String) :=
            if ctor == "L" || ctor == "GL" then some (lineInit e K caps)
-           else if ctor == "U" then some (defaultLine K)
+           else if ctor.startsWith "U" then some (defaultLine K)
            else if ctor == "D" then some (directLine e K caps cx)
            else if ctor == "A" then some (arcDirectLine e K caps cx)
            else if ctor == "G0" then some (genDirectLine e K caps false cx)
@@ -107,7 +107,7 @@ def handle (op : String) (args res : List String) : Option Verdict :=
   | "uninitmask" => some <|
     -- a default-constructed line (`_caps = 0`): nothing can be located
     match args, res with
-    | [sv, om, am], [wb, rn] =>
+    | [sv, om, am, _fill], [wb, rn] =>
       (match om.toNat?, pb am, wb.toNat?, pb rn with
        | some _outmask, some arcmode, some wbits, some retNaN =>
          let e := enumOf sv
